@@ -836,7 +836,8 @@ class ktensor:
         other_tensor = other
 
         self.normalize()
-        other_tensor = other_tensor.normalize()
+        # Normalize a copy: only the receiver is documented to change
+        other_tensor = other_tensor.copy().normalize()
 
         N = self.ndims
         RA = self.ncomponents
